@@ -24,7 +24,7 @@ use crate::props::Prop;
 pub const PROP: Prop = Prop {
     id: "C09",
     level: "exploration",
-    rule: "macro invocations generated from the documented syntax: model trees of depth <= 5 over integers within i32 (and i64/u64-suffixed), floats (short decimal forms with 1-5 significant digits and decimal exponents -12..17, spelled as Rust prints them with {:?} - exponent notation below 1e-4 and from 1e16 - and with explicit exponents 2.5e-3 / 2.5E-3), strings, Rust character literals, #t #f #nil, (), identifier symbols, #\"...\" symbols, punctuation-only symbols (+ - * / < = > ! $ % & ^ ~ ? @ <= >= -> ... ++ .++ :!) at every position, keywords as #:name, :name and #:\"...\", proper lists, dotted lists whose tail is an atom, a list or a dotted list (flattening), vectors, and unquotes ,x / ,(expr) of several Rust types in element and dotted-tail position; every invocation is compiled (rustc) and compared at run time with lexpr::from_str of the equivalent text and with a model value built from plain constructors; non-trivial = the invocation contains a list, vector, punctuation symbol or unquote; distinct by the invocation's token text",
+    rule: "macro invocations generated from the documented syntax: model trees of depth <= 5 over integers within i32 (and i64/u64-suffixed), floats (short decimal forms with 1-5 significant digits and decimal exponents -12..17, spelled as Rust prints them with {:?} - exponent notation below 1e-4 and from 1e16 - and with explicit exponents 2.5e-3 / 2.5E-3), strings, Rust character literals, #t #f #nil, (), identifier symbols, #\"...\" symbols, punctuation-only symbols (+ - * / < = > ! $ % & ^ ~ ? @ <= >= -> ... ++ .++ :!) at every position, keywords as #:name, :name and #:\"...\", proper lists, dotted lists whose tail is an atom, a list or a dotted list (flattening), vectors, and unquotes ,x / ,(expr) of several Rust types in element and dotted-tail position, including expressions that draw from a counter shared by the invocation (the k-th in source order must contribute k); every invocation is compiled (rustc) and compared at run time with lexpr::from_str of the equivalent text and with a model value built from plain constructors; non-trivial = the invocation contains a list, vector, punctuation symbol or unquote; distinct by the invocation's token text",
     assumptions: &[
         "excluded by construction and counted: a '-' symbol directly followed by a literal and a ':' symbol directly followed by an identifier or literal (Rust tokenisation cannot tell them from a negative number / a keyword), names needing escapes inside #\"...\"",
         "floats are restricted to short decimal forms so that the default (fast-float) parser reads the text exactly",
@@ -289,6 +289,9 @@ fn g_unquote() -> BS<M> {
         Just(M::Unquote("var_int".into(), MV::U(42), false)),
         Just(M::Unquote("var_str".into(), MV::Str("bound".into()), false)),
         Just(M::Unquote("var_val".into(), MV::list(vec![MV::sym("x"), MV::U(1)]), false)),
+        // expressions with a side effect on shared state (numbered by number_ticks)
+        Just(M::Unquote("tick(&ctr)".into(), MV::U(0), true)),
+        Just(M::Unquote("tick(&ctr)".into(), MV::U(0), true)),
     ]
     .boxed()
 }
@@ -352,6 +355,26 @@ fn sanitise(m: M, excluded: &mut u64) -> M {
             M::List(xs, tail)
         }
         M::Vector(xs) => M::Vector(fix_seq(xs, excluded)),
+        other => other,
+    }
+}
+
+/// `,(tick(&ctr))` draws from a counter shared by the whole invocation: the
+/// k-th one in source order contributes k. A macro expansion that evaluates the
+/// unquoted expressions in another order than they are written builds a
+/// different value.
+fn number_ticks(m: M, next: &mut u64) -> M {
+    match m {
+        M::Unquote(src, _, paren) if src == "tick(&ctr)" => {
+            *next += 1;
+            M::Unquote(src, MV::U(*next), paren)
+        }
+        M::List(xs, t) => {
+            let xs = xs.into_iter().map(|x| number_ticks(x, next)).collect();
+            let t = t.map(|t| Box::new(number_ticks(*t, next)));
+            M::List(xs, t)
+        }
+        M::Vector(xs) => M::Vector(xs.into_iter().map(|x| number_ticks(x, next)).collect()),
         other => other,
     }
 }
@@ -425,6 +448,11 @@ fn check(id: usize, got: Value, text: Option<&str>, model: Value) {
     }
 }
 
+fn tick(c: &std::cell::Cell<u64>) -> u64 {
+    c.set(c.get() + 1);
+    c.get()
+}
+
 fn main() {
     let var_int = 42u32;
     let var_str = "bound";
@@ -445,7 +473,7 @@ fn write_crate(cases: &[(usize, &M)]) -> Vec<usize> {
             format!("Some({})", rust_str(&lexpr::to_string(&model.to_value()).unwrap_or_default()))
         };
         // one invocation per source line
-        src.push_str(&format!("    {{ let var_val = var_val.clone(); check({}, sexp!({}), {}, {}); }}\n", id, m.macro_src(), text, rust_expr(&model)));
+        src.push_str(&format!("    {{ let var_val = var_val.clone(); let ctr = std::cell::Cell::new(0u64); let _ = &ctr; check({}, sexp!({}), {}, {}); }}\n", id, m.macro_src(), text, rust_expr(&model)));
         line_to_case.push(*id);
     }
     src.push_str("}\n");
@@ -683,6 +711,18 @@ fn run(ctx: &mut Ctx) {
         M::List(vec![M::Int(-5, 0), M::Float((-1.5f64).to_bits(), 0), M::Float((-2.5e-7f64).to_bits(), 0), M::Float((-2.5e-3f64).to_bits(), 1)], None),
         M::List(vec![id("a"), p(".."), id("b")], None),
         M::Vector(vec![id("a"), p("..."), id("b")]),
+        // evaluation order of unquoted expressions: elements, nested elements, dotted tail, vector
+        number_ticks(
+            M::List(
+                vec![
+                    M::Unquote("tick(&ctr)".into(), MV::U(0), true),
+                    M::List(vec![M::Unquote("tick(&ctr)".into(), MV::U(0), true)], Some(Box::new(M::Unquote("tick(&ctr)".into(), MV::U(0), true)))),
+                    M::Vector(vec![M::Unquote("tick(&ctr)".into(), MV::U(0), true), M::Unquote("tick(&ctr)".into(), MV::U(0), true)]),
+                ],
+                Some(Box::new(M::Unquote("tick(&ctr)".into(), MV::U(0), true))),
+            ),
+            &mut 0,
+        ),
     ];
     let mut excluded = 0u64;
     let mut all_failures = 0usize;
@@ -690,7 +730,7 @@ fn run(ctx: &mut Ctx) {
         let mut trees: Vec<M> = if b == 0 { battery.clone() } else { Vec::new() };
         let gen = ctx.sample_values(&format!("trees/{}", b), &g_tree(), per_batch);
         for t in gen {
-            trees.push(dedupe_var_val(sanitise(t, &mut excluded), &mut false));
+            trees.push(number_ticks(dedupe_var_val(sanitise(t, &mut excluded), &mut false), &mut 0));
         }
         // distinct invocations only
         let mut seen = std::collections::BTreeSet::new();
